@@ -1,6 +1,7 @@
 """C03 — integer->string is the canonical numeral: tables, dispatch, widths (DESIGN §4)."""
 from rules import tbl_write_integer as I
 from rules.core import guarded
+from rules import extra as X
 
 INFO = {
     "explanation": "All digit-pair tables (2..36), the digit-count tables and log multipliers, the 128-bit division constants for every radix (d = radix^u64_step, reciprocal valid for all n < 2^128), min/max step tables, buffer-size constants, re-slice constants and signed/unsigned width pairing are compared with their mathematical definitions in every feature configuration.",
@@ -17,3 +18,4 @@ def run(col, configs, tier):
         guarded(col, I.rule_div128, facts)
         guarded(col, I.rule_steps, facts)
         guarded(col, I.rule_sizes, facts)
+        guarded(col, X.rule_step_helper_agreement, facts)
